@@ -61,7 +61,7 @@ def main():
                 solvers.pop(op["name"], None)
                 obs = {"ok": True}
             elif kind == "find_all":
-                s = nucsio.build_solver(problem_for(op), op["cfg"])
+                s = nucsio.build_solver(problem_for(op), op["cfg"], stack_max_height=op.get("height", 128))
                 obs = {"solutions": [sol(x) for x in s.find_all()], "stats": stats(s)}
             elif kind == "optimize":
                 s = nucsio.build_solver(problem_for(op), op["cfg"])
